@@ -14,7 +14,7 @@ pub mod sync {
 
     /// loom atomics (orderings are honoured by loom's memory model).
     pub mod atomic {
-        pub use loom::sync::atomic::{fence, AtomicBool, AtomicU64, AtomicUsize, Ordering};
+        pub use loom::sync::atomic::{fence, AtomicBool, AtomicI32, AtomicI64, AtomicIsize, AtomicU16, AtomicU32, AtomicU64, AtomicU8, AtomicUsize, Ordering};
     }
 
     /// `parking_lot::Mutex` API over `loom::sync::Mutex`.
@@ -37,6 +37,10 @@ pub mod sync {
         /// Consume.
         pub fn into_inner(self) -> T {
             self.0.into_inner().unwrap()
+        }
+        /// Non-blocking acquire.
+        pub fn try_lock(&self) -> Option<MutexGuard<'_, T>> {
+            self.0.try_lock().ok().map(MutexGuard)
         }
     }
 
@@ -163,5 +167,15 @@ pub mod thread {
     /// Park **without timeout**: a lost wake-up is a loom deadlock.
     pub fn park_timeout(_timeout: Duration) {
         loom::thread::park();
+    }
+
+    /// Park.
+    pub fn park() {
+        loom::thread::park();
+    }
+
+    /// Sleeping is a yield.
+    pub fn sleep(_d: Duration) {
+        loom::thread::yield_now();
     }
 }
